@@ -52,9 +52,18 @@ func At(ll orb.Point, z Zoom) Tile {
 		Z: z,
 	}
 
-	// a longitude of 180 (or one that rounds onto it) belongs to the last column
-	if max := uint32(1) << uint32(z); max != 0 && t.X >= max {
-		t.X = max - 1
+	if max := uint32(1) << uint32(z); max != 0 {
+		// a longitude of 180 (or one that rounds onto it) belongs to the last column
+		if t.X >= max {
+			t.X = max - 1
+		}
+
+		// ll[0]/360 + 0.5 is rounded: a longitude just west of a column edge can
+		// round onto the edge. Keep the column consistent with Bound(), whose west
+		// edge is this very expression (mercator.ToGeo).
+		if t.X > 0 && ll[0] < 360.0*(float64(t.X)/float64(max)-0.5) {
+			t.X--
+		}
 	}
 
 	return t
